@@ -106,7 +106,7 @@ func fieldByPath(v reflect.Value, path []string) reflect.Value {
 	return v
 }
 
-var sourceIndex = map[string]int{"flagset": 1, "env": 2, "file": 3, "def": 4, "flagdef": 5}
+var sourceIndex = map[string]int{"flagset": 1, "env": 2, "file": 3, "def": 4, "flagdef": 5, "foreign": 6}
 
 // valueOf gives the (distinct, non-empty) value source src holds for the field number fi of kind kind.
 func valueOf(kind, src string, fi int) any {
@@ -148,6 +148,7 @@ type scenario struct {
 	Subjects []subject `json:"subjects"`
 	Invalid  []string  `json:"invalid"`
 	Unset    bool      `json:"unsetSection"`
+	Foreign  bool      `json:"foreign"`  // an un-prefixed environment variable of the first subject's name is set too: it is nobody's source
 	FlagForm string    `json:"flagForm"` // single | first | second: the first subject's flag alone, or one of two alternative flags bound together // the whole section of the invalidated field is left unset (every field zero)
 	EnvNames []string  `json:"envNames"`
 }
@@ -254,8 +255,16 @@ func loadOne(id int, sc scenario, dir string, rng *rand.Rand) (loadEvent, error)
 			}
 			envSet = append(envSet, s.Env)
 		}
+		foreignHere := sc.Foreign && i == 0
+		if foreignHere {
+			short := s.Env[len(sc.Prefix)+1:]
+			if err := os.Setenv(short, textOf(valueOf(s.Kind, "foreign", i))); err != nil {
+				return ev, err
+			}
+			envSet = append(envSet, short)
+		}
 		// a bound flag: needed when it is set or has a default; otherwise bound (with an empty default) every other time
-		if has(s.Sources, "flagset") || has(s.Sources, "flagdef") || rng.Intn(2) == 0 {
+		if has(s.Sources, "flagset") || has(s.Sources, "flagdef") || foreignHere || rng.Intn(2) == 0 {
 			name := fmt.Sprintf("flag%d", i)
 			var def any
 			if has(s.Sources, "flagdef") {
@@ -281,7 +290,7 @@ func loadOne(id int, sc scenario, dir string, rng *rand.Rand) (loadEvent, error)
 				}
 			}
 			envVar := s.Env
-			if rng.Intn(2) == 0 { // the name may be given without the prefix
+			if foreignHere || rng.Intn(2) == 0 { // the name may be given without the prefix
 				envVar = s.Env[len(sc.Prefix)+1:]
 			}
 			if i == 0 && (sc.FlagForm == "first" || sc.FlagForm == "second") {
